@@ -7,4 +7,5 @@ Inductive bexpr : Set :=
 | BInFn (sets : list fnset).       (* s in (fn_scope.nonlocals | fn_scope.globals ...) *)
 Inductive sexpr : Set :=
 | SInter (a b : sexpr) | SUnion (a b : sexpr) | SDiff (a b : sexpr)
-| SBasic | SLiveIn | SLiveOut.
+| SBasic | SLiveIn | SLiveOut
+| SFn (sets : list fnset).        (* fn_scope.nonlocals / fn_scope.globals *)
